@@ -25,8 +25,9 @@ SC_TARGETS = ["theories/SpaceCharge/Igf", "theories/SpaceCharge/Hockney", "theor
 SC_PREREQ = ["theories/SpaceCharge/Igf", "theories/SpaceCharge/Cic", "theories/SpaceCharge/Hockney", "theories/Gen/ScGenBase"]
 SC_DEPS = {"theories/SpaceCharge/Hockney": ["theories/SpaceCharge/Cic"], "theories/Gen/ScGenBase": ["theories/SpaceCharge/Cic"]}
 SC_TRUSTED = ("source-to-Coq translator harness/translate_sc.py (per-sample / per-particle / per-grid-point reading, data-flow roles, "
-              "slice and mask reading, declared vectorisation frame of track: in its docstring): ties SpaceCharge/Igf.v (ipot), Cic.v "
-              "(dt_of, kick_one, geometry of Gen/ScGenBase.v) and Hockney.v (ig2_of, grad, field) to /repo's source text")
+              "slice and mask reading, corner / axis enumeration and entry order of the cloud-in-cell code, declared frames: in its docstring): "
+              "ties SpaceCharge/Igf.v (ipot, igf), Cic.v (nrm, cell_of, corners, cw, valid, contrib, inv_vol, rho, gather, dt_of, kick_one, "
+              "geometry of Gen/ScGenBase.v) and Hockney.v (ig2_of, grad, field) to /repo's source text")
 
 
 def _sc_prereq_fresh():
